@@ -70,3 +70,19 @@ func Sf(format string, a ...any) string { return fmt.Sprintf(format, a...) }
 
 func Fp(f float64) *float64 { return &f }
 func Bp(b bool) *bool       { return &b }
+
+// CopyConfig deep-copies a runtime config map (bleve stores path etc. into the map it is given).
+func CopyConfig(c map[string]interface{}) map[string]interface{} {
+	if c == nil {
+		return nil
+	}
+	out := make(map[string]interface{}, len(c))
+	for k, v := range c {
+		if m, ok := v.(map[string]interface{}); ok {
+			out[k] = CopyConfig(m)
+		} else {
+			out[k] = v
+		}
+	}
+	return out
+}
